@@ -65,6 +65,9 @@ type Engine struct {
 	msCache   map[string]*ssa.Function
 	timeoutMs int
 	simpCache sync.Map
+	tmpl      *Path
+	tmplMu    sync.Mutex
+	noTemplate bool
 	verbose   bool
 	solverLog string
 }
@@ -228,6 +231,7 @@ func (e *Engine) findFunc(name string) *ssa.Function {
 func (e *Engine) setStubs(h *HarnessCfg) error {
 	e.stubs = map[string]*ssa.Function{}
 	e.isStubFn = map[*ssa.Function]bool{}
+	e.tmpl = nil // initialisers may call stubbed functions: one template world per harness
 	all := map[string]string{}
 	for k, v := range e.cfg.Stubs {
 		all[k] = v
